@@ -106,11 +106,9 @@ func (e *expr) refsB() bool {
 	return e.A.refsB() || e.B.refsB()
 }
 
-// enumerate returns every expression of depth <= 2, simplest first.
-// thorough (quick=false): ordered operands, repetitions included.
-// quick: AND/OR operands unordered (a op b only with a not after b in enumeration order, a op a included)
-// and a depth-2 AND/OR must have at least one atomic operand.
-func enumerate(quick bool) []*expr {
+// enumerate returns every expression of depth <= 2 (ordered operands, repetitions included), simplest
+// first, then 1=1.
+func enumerate() []*expr {
 	var e0 []*expr
 	for i := range atoms {
 		e0 = append(e0, &expr{Op: "atom", Atom: i})
@@ -128,12 +126,9 @@ func enumerate(quick bool) []*expr {
 			}
 		}
 		for _, op := range []string{"and", "or"} {
-			for i, a := range all {
-				for j, b := range all {
+			for _, a := range all {
+				for _, b := range all {
 					if isLower[a] && isLower[b] {
-						continue
-					}
-					if quick && (j < i || (a.Op != "atom" && b.Op != "atom")) {
 						continue
 					}
 					out = append(out, &expr{Op: op, A: a, B: b})
@@ -147,6 +142,29 @@ func enumerate(quick bool) []*expr {
 	d2 := grow(e0, e1)
 	out := append(append([]*expr{}, e1...), d2...)
 	out = append(out, &expr{Op: "atom", Atom: fullTable})
+	return out
+}
+
+// quickSubset keeps every predicate of depth <= 1 and, of the depth-2 predicates, the first one (in
+// enumeration order) for every per-row TRUE/FALSE/NULL vector over the rows of all layouts that no
+// earlier predicate produced: every semantically distinct selection of the depth-2 space runs once.
+// The vectors used for this choice come from the reference evaluator (which is cross-checked against
+// DuckDB on everything that is executed); a wrong choice could only lose coverage.
+func quickSubset(all []*expr, layouts []*layout) []*expr {
+	seen := map[string]bool{}
+	var out []*expr
+	for _, e := range all {
+		var key []byte
+		for _, l := range layouts {
+			for _, r := range l.Rows {
+				key = append(key, "FTN"[e.eval(r)])
+			}
+		}
+		if e.depth() <= 1 || !seen[string(key)] {
+			out = append(out, e)
+		}
+		seen[string(key)] = true
+	}
 	return out
 }
 
@@ -400,7 +418,7 @@ func must(err error, what string) {
 var scratch string   // removed on exit by the process that created it (the parent)
 var childRoot string // where this process puts its worker directory
 
-const quickBound = "every expression of depth<=2 in which AND/OR operands are unordered (one representative per commutative pair, a op a included) and a depth-2 AND/OR has at least one atomic operand"
+const quickBound = "every expression of depth<=1 (ordered operands, repetitions) and, of the depth-2 expressions enumerated simplest-first, the first representative of every per-row TRUE/FALSE/NULL vector not produced by an earlier expression (each semantically distinct selection of the depth-2 space is executed once; thorough executes all of them)"
 
 func cleanup() {
 	if scratch != "" {
@@ -888,8 +906,11 @@ type task struct {
 	l int
 }
 
-func buildTasks(run *ev.Run) ([]*expr, []task) {
-	exprs := enumerate(run.Quick())
+func buildTasks(run *ev.Run, layouts []*layout) ([]*expr, []task) {
+	exprs := enumerate()
+	if run.Quick() {
+		exprs = quickSubset(exprs, layouts)
+	}
 	var tasks []task
 	for _, e := range exprs {
 		tasks = append(tasks, task{e, 0})
@@ -923,7 +944,7 @@ func childMain(run *ev.Run, spec string, layouts []*layout) {
 	dbg("worker ready")
 	full := []*dataset{w.makeDataset(layouts[0], layouts[0].Rows), w.makeDataset(layouts[1], layouts[1].Rows)}
 	dbg("datasets ready")
-	_, tasks := buildTasks(run)
+	_, tasks := buildTasks(run, layouts)
 	dbg("tasks ready")
 	var mine []int
 	for i := range tasks {
@@ -1016,7 +1037,7 @@ func main() {
 		return
 	}
 
-	exprs, tasks := buildTasks(run)
+	exprs, tasks := buildTasks(run, layouts)
 	nProcs := 16
 	if n, err := strconv.Atoi(os.Getenv("VERIF_C10_WORKERS")); err == nil && n > 0 {
 		nProcs = n
@@ -1311,7 +1332,7 @@ func replay(run *ev.Run, w *worker, layouts []*layout) {
 		must(fmt.Errorf("layout %q", f.Replay.Layout), "replay")
 	}
 	var e *expr
-	for _, c := range enumerate(false) {
+	for _, c := range enumerate() {
 		if c.render() == f.Replay.Where {
 			e = c
 		}
